@@ -144,7 +144,8 @@ class Session:
         while select.select([self.master], [], [], 0)[0]:
             self.read_master()
         self.garbage.clear()
-        cmd = {k: case[k] for k in ("op", "timeout", "enabled", "swap", "env", "more", "request", "cache") if k in case}
+        cmd = {k: case[k] for k in ("op", "timeout", "enabled", "swap", "env", "more", "request", "cache", "calls")
+               if k in case}
         self.send(cmd)
         rounds, late, result = [], [], None
         reqbuf = bytearray()
@@ -262,6 +263,10 @@ def plan_round(case, k, request: bytes):
     T = case["timeout"]
     units = round_units(case, request)
     stream = b"".join(units)
+    if case["op"] == "session":
+        # one cache epoch: the same request may be written several times (one per argument
+        # form); the terminal answers a given request the same way every time
+        k = 0 if request.startswith(Q_FG) else 1
     recipe = case["recipes"][k] if k < len(case["recipes"]) else {"mode": "whole", "delays": []}
     mode = recipe.get("mode", "cuts")
     bounds, pos = [], 0
